@@ -97,6 +97,25 @@ func (r *replayer) race(racer string) (bool, string) {
 	if racer == "" {
 		return false, "no racer registered for this harness"
 	}
+	// the concurrent native run is probabilistic: a positive outcome of a
+	// racer stands for the rest of this run; a negative one is retried twice
+	if d, ok := raceConfirmed[racer]; ok {
+		return true, d
+	}
+	var ok bool
+	var detail string
+	for attempt := 0; attempt < 3 && !ok; attempt++ {
+		ok, detail = r.raceOnce(racer)
+	}
+	if ok {
+		raceConfirmed[racer] = detail
+	}
+	return ok, detail
+}
+
+var raceConfirmed = map[string]string{}
+
+func (r *replayer) raceOnce(racer string) (bool, string) {
 	if r.raceBin == "" {
 		bin := filepath.Join(r.tmp, "race.test")
 		cmd := exec.Command("go", "test", "-race", "-c", "-tags", "verif", "-vet=off", "-overlay", r.ovPath, "-o", bin, "./"+r.pkgDir)
@@ -118,6 +137,9 @@ func (r *replayer) race(racer string) (bool, string) {
 	out := buf.String()
 	if strings.Contains(out, "DATA RACE") {
 		return true, "race detector: DATA RACE in " + racer + ": " + firstLines(out[strings.Index(out, "DATA RACE"):], 4)
+	}
+	if k := strings.Index(out, "VERIF-STRESS-FAIL"); k >= 0 {
+		return true, "native concurrent run of " + racer + " observed the failure: " + firstLines(out[k:], 2)
 	}
 	return false, "race detector silent in " + racer + ": " + firstLines(out, 3)
 }
@@ -141,6 +163,7 @@ type replayFile struct {
 	Vars     map[string]string `json:"vars,omitempty"`
 	Tier     string            `json:"tier"`
 	Racer    string            `json:"racer,omitempty"`
+	Sched    bool              `json:"sched,omitempty"`
 }
 
 type nativeResult struct {
@@ -171,7 +194,7 @@ func (r *replayer) runBin(env []string, timeout time.Duration) (string, error) {
 func (r *replayer) replay(v *interp.Violation, path string) (bool, string) {
 	os.MkdirAll(filepath.Dir(path), 0o755)
 	rf := replayFile{Property: *prop, Harness: v.Harness, Kind: v.Kind, Label: v.Label, Msg: v.Msg, Site: v.Site,
-		Tags: v.Tags, Inputs: v.Inputs, Tier: *tier, Vars: tierVars(v.Harness), Racer: racerOf[v.Harness]}
+		Tags: v.Tags, Inputs: v.Inputs, Tier: *tier, Vars: tierVars(v.Harness), Racer: racerOf[v.Harness], Sched: v.Sched}
 	b, _ := json.MarshalIndent(rf, "", " ")
 	if err := os.WriteFile(path, b, 0o644); err != nil {
 		return false, err.Error()
@@ -180,8 +203,17 @@ func (r *replayer) replay(v *interp.Violation, path string) (bool, string) {
 }
 
 func (r *replayer) replayPath(path string, rf *replayFile) (bool, string) {
-	if rf.Kind == "lock" {
-		return r.race(rf.Racer)
+	if rf.Kind == "lock" || rf.Sched {
+		// lock-discipline and schedule-dependent violations: confirmed by the
+		// harness's concurrent native run (race detector report, or the stress
+		// function observing the failure itself)
+		ok, detail := r.race(rf.Racer)
+		if ok && rf.Sched && rf.Kind != "assert" && rf.Kind != "lock" && strings.Contains(detail, "observed the failure") {
+			// a blocked or panicking schedule is not confirmed by the stress
+			// function seeing some other failure
+			return false, "schedule-dependent " + rf.Kind + " not confirmed: " + detail
+		}
+		return ok, detail
 	}
 	out, err := r.runBin([]string{"VERIF_REPLAY=" + path}, 60*time.Second)
 	var nr nativeResult
@@ -221,7 +253,14 @@ func (r *replayer) replayPath(path string, rf *replayFile) (bool, string) {
 	}
 	switch rf.Kind {
 	case "assert":
-		return nr.Kind == "assert" && nr.Label == rf.Label, detail
+		if nr.Kind == "assert" && nr.Label != rf.Label {
+			// the natively compiled code fails an assertion of the same harness on
+			// the same inputs, but not the one the engine named (the engine's model
+			// of an unordered container - a set's Pop, a map's iteration - picks one
+			// order, the native run another): the violation reproduces
+			return true, detail + " (the native run fails a different assertion of the same harness: " + nr.Label + ")"
+		}
+		return nr.Kind == "assert", detail
 	case "panic":
 		return nr.Kind == "panic", detail
 	case "lock":
